@@ -240,7 +240,7 @@ func c16Run(c *Ctx) {
 		prods     []c16Producer
 	}
 	var vals []val
-	for _, s := range []string{"C:\\tmp\\", "\\", "a\\b", "abc", "", "5", "12.5", "\u09e6\u09ed", "1000000", "x5", "7", "\u0995\u09df\u09be", "e\u0301\u09dc", "\u0995\u09c7\u09be"} {
+	for _, s := range []string{"C:\\tmp\\", "\\", "a\\b", "abc", "", "5", "12.5", "\u09e6\u09ed", "1000000", "x5", "7", "\u0995\u09df\u09be", "e\u0301\u09dc", "\u0995\u09c7\u09be", "http://x.bd/a", "src/*.bn or doc/*/x"} {
 		vals = append(vals, val{"string", `"` + s + `"`, c16StringProducers(s)})
 	}
 	for _, n := range []int{3, 0, -1, 7, 1000000, 1048576, 2, 1} {
